@@ -429,7 +429,7 @@ func segKey(sc *Scenario) string {
 func init() {
 	register(&Property{
 		ID: "C19", Level: "exploration",
-		Rule:     "raw driver sends (0) a probe line of length limit-2..limit+3, limit+50, 2*limit (CRLF included; NOOP padded or MAIL padded with spaces) for limits 64/200/2000 at seven conversation positions (after a BDAT chunk - lock-step or in the chunk's own segment -, after a chunk the backend refused, inside an AUTH exchange where the line is the base64 response to a 334, ...), whole or cut so that the limit is crossed inside one segment or across segments; (1) an endless LF-free stream of 70000 octets at four positions including after a BDAT chunk; (2) every string of length <= 4 over {NUL,CR,LF,SP,A,:,<} as a command line, repeated 1-4 times; (3) seeded binary; (4) mixes of valid and malformed commands around the fourth error, checked against a reference error counter. Every case is non-trivial by construction; distinct by (kind, limit, length, form, position, lines, segmentation). Length limit+1 is generated but not judged.",
+		Rule:     "raw driver sends (0) a probe line of length limit-2..limit+3, limit+50, 2*limit (CRLF included; NOOP padded or MAIL padded with spaces) for limits 64/200/2000 at seven conversation positions (after a BDAT chunk - lock-step or in the chunk's own segment -, after a chunk the backend refused, inside an AUTH exchange where the line is the base64 response to a 334, ...), whole or cut so that the limit is crossed inside one segment or across segments; (1) an endless LF-free stream of 70000 octets at four positions including after a BDAT chunk; (2) every string of length <= 4 over {NUL,CR,LF,SP,A,:,<} as a command line, repeated 1-4 times; (3) seeded binary; (4) mixes of valid and malformed commands around the fourth error, checked against a reference error counter. Every case is non-trivial by construction; distinct by (kind, limit, length, form, position, lines, segmentation). Length limit+1 is generated but not judged. The error flood also comes from a peer that does not take the replies (reply writes fail, or block until WriteTimeout), with a sentinel command behind it.",
 		Gen:      genC19,
 		Check:    checkC19,
 		Classify: classifyC19,
